@@ -218,11 +218,13 @@ def render(idx, n):
                 return Err(format!("value {ci} (single-use path): observed {{first}}, configured {{}}", {dbg_lit}));
             }}{second}
         }}""")
-        if clonable:
+        multi_paths = ["Mk::f.each_call(matching!()).returns(v)", "Mk::f.some_call(matching!()).returns(v).at_least_times(1)",
+                       "Mk::f.next_call(matching!()).returns(v).n_times(3)", "Mk::f.stub(|each| { each.call(matching!()).returns(v); })"]
+        for mp in (multi_paths if clonable else []):
             cases.append(f"""
         {{
             let v: {vt} = {expr};
-            let u = Unimock::new(Mk::f.each_call(matching!()).returns(v)).no_verify_in_drop();
+            let u = Unimock::new({mp}).no_verify_in_drop();
             let r1 = u.f();
             let r2 = u.f();
             let r3 = u.f();
